@@ -24,6 +24,7 @@ from sa.symex import Interp, flat_guards
 
 RULES = {
     "R-C06-o": "collapsed: the decision structure of the algorithm - entries are gathered per (mapped) value except the new common value; the output starts as precedence[-1] and is overwritten from the lowest to the highest precedence; a per-row counter of columns not yet explained (initially the number of columns, decremented for the last precedence and for every value written while the common value has not been written yet) decides which rows take the common value when its turn comes",
+    "R-C06-r": "every operation's result is a well-formed index (row lists sorted, unique, in range, non-empty): imported from the C07 analysis of the same operations",
     "R-C06-q": "filtered / reindexed / collapsed / copy / sliced / column_stack return a new index on every path, never the receiver or an argument (documented exception: sliced() without orders)",
     "R-C06-p": "small schemas the other operations rest on: set_if pops the key for a None / empty value and stores otherwise; filtered renumbers through a scatter of arange(new_length) and builds shape (new_length,) + shape[1:]; sliced starts its shape and coordinates with the row extent / the value; the default mapping of reindexed ranks the listed VALUES (first coordinates)",
     "R-C06-n": "forced views: get(key, force=True) of a common-valued key returns common_rowids(<the key's own column>), and items(force=True) appends ((common,), common_rowids()) for a 1-D index or ((common, c), common_rowids(c)) for EVERY column c of a 2-D one, after the explicit entries",
@@ -1054,6 +1055,19 @@ def main(tier):
     rule_n(prog, rep)
     rule_p(prog, rep)
     rule_q(prog, rep)
+    # R-C06-r: an operation's result behaves like the array only if it is a well-formed index (sorted, unique, in-range,
+    # non-empty row lists - the later set algebra and cube walks rest on it): the C07 analysis of every operation
+    import c07
+    sub7 = core.Report("C07", level="other", rules=c07.RULES, tier=tier)
+    ii7 = prog.cls("iindexes", "iindex")
+    st7 = {"sites": 0}
+    for fi7 in [f for n7, f in ii7.methods.items() if n7 not in ("__init__",)] + [prog.func("iindexes", "column_stack")]:
+        c07.analyse_root(prog, fi7, sub7, st7)
+    k7 = 0
+    for o in sub7.obls:
+        k7 += 1
+        rep.add("R-C06-r", o.where, "[%s] %s" % (o.rule, o.construct), o.status, o.detail, True, o.witness)
+    rep.floor("R-C06-r", 30, k7)
     rule_o(prog, rep)
     import c07
     sub7 = core.Report("C07", level="other", rules=c07.RULES, tier=tier)
